@@ -1117,7 +1117,7 @@ impl Walrus {
             let mut target = PersistTarget::None;
 
             let mut update_state = |info: &mut ColReaderInfo| {
-                if checkpoint {
+                if checkpoint && start_offset.is_none() {
                     let mut should_persist_disk = true;
 
                     if let ReadConsistency::AtLeastOnce { persist_every } = self.read_consistency {
